@@ -869,6 +869,9 @@ pub enum Mix {
     /// many threads (4-8) inserting many distinct keys into a tiny table: several resize
     /// generations with helpers arriving at arbitrary moments (explored with random tapes)
     Long,
+    /// 4-6 threads x 6-12 mixed per-key operations (and optionally iterations / retain_force) over
+    /// ~24 keys on a tiny table: resizes, tree conversions and removals interleave freely
+    LongMixed,
 }
 
 fn key_strategy(hot: u16) -> BoxedStrategy<u16> {
@@ -919,6 +922,18 @@ pub fn cop_strategy(mix: Mix, hot: u16) -> BoxedStrategy<COp> {
         ]
         .boxed(),
         Mix::Long => (16u16..200).prop_map(COp::Insert).boxed(),
+        Mix::LongMixed => {
+            let kk = prop_oneof![3 => 0u16..10, 2 => 16u16..30].boxed();
+            prop_oneof![
+                6 => kk.clone().prop_map(COp::Insert),
+                3 => kk.clone().prop_map(COp::Remove),
+                2 => (kk.clone(), act.clone()).prop_map(|(k, a)| COp::Compute(k, a)),
+                2 => kk.clone().prop_map(COp::Get),
+                1 => kk.clone().prop_map(COp::TryInsert),
+                1 => kk.clone().prop_map(COp::RemoveEntry),
+            ]
+            .boxed()
+        }
         Mix::Drain => prop_oneof![
             3 => k.clone().prop_map(COp::Remove),
             1 => (k.clone(), Just(Act::Remove)).prop_map(|(k, a)| COp::Compute(k, a)),
@@ -1014,6 +1029,20 @@ pub fn prog_strategy(mix: Mix, max_threads: usize, max_ops: usize) -> BoxedStrat
     }
     if mix == Mix::Long {
         return long_prog_strategy(max_threads, max_ops);
+    }
+    if mix == Mix::LongMixed {
+        let hm = prop_oneof![3 => Just(HMode::Identity), 2 => Just(HMode::Mix), 2 => Just(HMode::SameBin), 1 => Just(HMode::Const0), 1 => Just(HMode::Mod4)];
+        let mo = max_ops.max(6);
+        return (hm, prop_oneof![Just(0u32), Just(1u32), Just(5u32), Just(20u32), Just(43u32)], prop_oneof![Just(1u32), Just(2u32), Just(8u32)], prop_oneof![Just(GuardMode::PerOp), Just(GuardMode::PerThread), Just(GuardMode::Pin)], 0u16..14, proptest::collection::vec(0u16..10, 0..9))
+            .prop_flat_map(move |(hmode, capacity, batch, gmode, filler, hot)| {
+                let mut hot_init = hot.clone();
+                hot_init.sort();
+                hot_init.dedup();
+                let cfg = CCfg { hmode, capacity, batch, gmode };
+                let thread = proptest::collection::vec(cop_strategy(Mix::LongMixed, 10), mo / 2..=mo);
+                proptest::collection::vec(thread, 4..=max_threads.max(4)).prop_map(move |threads| Prog { cfg: cfg.clone(), filler, hot_init: hot_init.clone(), threads })
+            })
+            .boxed();
     }
     prog_strategy_general(mix, max_threads, max_ops).boxed()
 }
